@@ -1337,7 +1337,14 @@ pub fn run_beh<A: Adapter>(beh: &Beh) -> Obs {
         let mut o = OpObs::default();
         let before = sess.sp_p.fork_log();
         let mut sp = sess.sp_p.fork_log();
-        let pr = sess.prove(op, &mut sp, &BTreeMap::new(), None, i);
+        let mut redeclared = BTreeMap::new();
+        if op.obound.len() == 2 {
+            if let (Some(lp), Some(st)) = (sess.polys.get(&op.obound[0]), sess.states.get(&op.obound[0])) {
+                let q = LabeledPolynomial::new(lp.label().clone(), lp.polynomial().clone(), opt(op.obound[1]), lp.hiding_bound());
+                redeclared.insert(op.obound[0], (q, st.clone()));
+            }
+        }
+        let pr = sess.prove(op, &mut sp, &redeclared, None, i);
         o.sp_shape_p = sponge_shape(&sp.take_log());
         o.open = pr.class().into();
         o.open_detail = pr.detail();
